@@ -198,3 +198,34 @@ def refresh_loops(fn, copiers=("copy",)):
                         and v.args[0].value.id == lst and isinstance(v.args[0].slice, ast.Name) and v.args[0].slice.id == idx:
                     out.add(lst)
     return out
+
+
+def deleted_keys(region, model, dict_pred):
+    """[(key value, node, conditional?)] for every removal of a constant key from a dictionary satisfying dict_pred(expr):
+    `del D[K]`, `D.pop(K)`, `D.pop(K, default)`.  conditional is the innermost enclosing If when the removal is guarded by
+    anything other than the key's own membership test (`if K in D`), else None."""
+    nodes = region if isinstance(region, list) else [region]
+    out = []
+    for top in nodes:
+        for n in ast.walk(top):
+            key = node = None
+            if isinstance(n, ast.Delete):
+                for t in n.targets:
+                    if isinstance(t, ast.Subscript) and dict_pred(t.value):
+                        out.append((const_value(model, t.slice, None), n, t.value, t.slice))
+            elif isinstance(n, ast.Call) and isinstance(n.func, ast.Attribute) and n.func.attr == "pop" and n.args and dict_pred(n.func.value):
+                out.append((const_value(model, n.args[0], None), n, n.func.value, n.args[0]))
+    return out
+
+
+def own_membership_guard(node, stop, model):
+    """Ifs between node and stop whose test is NOT merely `<the same key> in <the same dict>` -> list of those Ifs"""
+    out = []
+    p = getattr(node, "_parent", None)
+    child = node
+    while p is not None and p is not stop:
+        if isinstance(p, ast.If) and (child in p.body or child in p.orelse):
+            out.append(p)
+        child = p
+        p = getattr(p, "_parent", None)
+    return out
